@@ -225,10 +225,12 @@ func run(seed int64, n int, dir string, _ []string) {
 		finalisationCorpus(o, bin, scratch)
 		headerlessCorpus(o, bin, scratch)
 		endingPlacement(o, bin, scratch)
+		createdCorpus(o, bin, scratch)
 		if os.Getenv("VERIF_RELOAD") != "" {
 			lockedReload(o, bin, scratch)
 		}
 	}
+	createdFormats(hc.NewGen(seed*7919+3), o, scratch, 135)
 	for h := 0; h < n; h++ {
 		oneHistory(g, o, scratch, bin, h)
 	}
